@@ -108,43 +108,45 @@ impl AlternateLocalTimeType {
         }
     }
 
-    pub(super) fn local_std_end_timestamp(&self, timestamp: i64) -> i64 {
+    pub(super) fn local_std_end_timestamp(&self, timestamp: i64) -> Option<i64> {
         rule_to_local_timestamp(&self.std_end, self.std_end_time as i32, timestamp)
     }
 
-    pub(super) fn local_dst_end_timestamp(&self, timestamp: i64) -> i64 {
+    pub(super) fn local_dst_end_timestamp(&self, timestamp: i64) -> Option<i64> {
         rule_to_local_timestamp(&self.dst_end, self.dst_end_time as i32, timestamp)
     }
 }
 
-fn rule_to_local_timestamp(start: &RuleDay, time: i32, timestamp: i64) -> i64 {
+/// Local timestamp at which the rule takes effect in the year of the given timestamp.
+/// Returns `None` if that date is outside of the valid date range.
+fn rule_to_local_timestamp(start: &RuleDay, time: i32, timestamp: i64) -> Option<i64> {
+    let year = DateTime::from_timestamp(timestamp).year();
     let date_days = match start {
-        RuleDay::JulianDayWithoutLeap(doy) => {
-            let year = DateTime::from_timestamp(timestamp).year();
-            year_doy_to_days(year, *doy, true).unwrap()
-        }
+        RuleDay::JulianDayWithoutLeap(doy) => year_doy_to_days(year, *doy, true).ok()?,
         RuleDay::JulianDayWithLeap(doy) => {
-            let year = DateTime::from_timestamp(timestamp).year();
-            year_doy_to_days(year, doy + 1, false).unwrap()
+            // Zero-based, day 365 of a non-leap year is the 1st of January of the following year
+            year_doy_to_days(year, 1, false)
+                .ok()?
+                .checked_add(*doy as i32)?
         }
         RuleDay::MonthWeekDay(month, week, day) => {
-            let year = DateTime::from_timestamp(timestamp).year();
-
-            let weekdays_in_month = weekdays_in_month(year, *month as u32, *day);
+            let weekdays_in_month = weekdays_in_month(year, *month as u32, *day)?;
 
             let day_of_month = match week {
-                5 => weekdays_in_month.last().unwrap(),
-                _ => &weekdays_in_month[*week as usize - 1],
+                5 => weekdays_in_month.last()?,
+                _ => weekdays_in_month.get(*week as usize - 1)?,
             };
 
-            let (start, _) = year_month_to_doy(year, *month as u32).unwrap();
-            year_doy_to_days(year, start + day_of_month, false).unwrap()
+            let (start, _) = year_month_to_doy(year, *month as u32).ok()?;
+            year_doy_to_days(year, start + day_of_month, false).ok()?
         }
     };
     let time = time as i64;
-    DateTime::from_seconds(date_days as i64 * SECS_PER_DAY as i64 + time)
-        .unwrap()
-        .timestamp()
+    Some(
+        DateTime::from_seconds(date_days as i64 * SECS_PER_DAY as i64 + time)
+            .ok()?
+            .timestamp(),
+    )
 }
 
 fn remove_designation(cursor: &mut Cursor) -> Result<(), TimeZoneError> {
@@ -246,10 +248,18 @@ fn parse_tz_string_rule(
         b'J' => {
             cursor.read_exact(1).expect(BUG_MSG);
             let day = parse_int(cursor.read_while(|c: &u8| c.is_ascii_digit()))?;
+            if !(1..=365).contains(&day) {
+                return Err(TimeZoneError::InvalidTzFile("Invalid julian day in footer"));
+            }
             RuleDay::JulianDayWithoutLeap(day)
         }
         byte if byte.is_ascii_digit() => {
-            let day = parse_int(cursor.read_while(|c: &u8| c.is_ascii_digit())).expect(BUG_MSG);
+            let day = parse_int(cursor.read_while(|c: &u8| c.is_ascii_digit()))?;
+            if day > 365 {
+                return Err(TimeZoneError::InvalidTzFile(
+                    "Invalid zero-based julian day in footer",
+                ));
+            }
             RuleDay::JulianDayWithLeap(day)
         }
         b'M' => {
@@ -262,6 +272,11 @@ fn parse_tz_string_rule(
             cursor.read_exact(1)?;
             let day = parse_int(cursor.read_while(|c| c.is_ascii_digit()))?;
 
+            if !(1..=12).contains(&month) || !(1..=5).contains(&week) || day > 6 {
+                return Err(TimeZoneError::InvalidTzFile(
+                    "Invalid month, week or day in footer",
+                ));
+            }
             RuleDay::MonthWeekDay(month, week, day)
         }
         _ => return Err(TimeZoneError::InvalidTzFile("Invalid footer")),
